@@ -1667,4 +1667,5 @@ def load_extensions():
                 importlib.import_module('pyvc.libext.' + fn[:-3])
 
 
-load_extensions()
+# load_extensions() is called at the end of pyvc/verify.py, once every core module is fully imported (extensions may
+# import pyvc.verify / pyvc.symexec at module level)
